@@ -446,7 +446,7 @@ namespace GeographicLib {
     void Load(std::istream& is, bool bin = true) {
       int version1, realspec, bucket, numpoints, treesize, cost;
       if (bin) {
-        char id[17];
+        char id[17] = {0};      // initialized in case the stream is truncated
         is.read(id, 16);
         id[16] = '\0';
         if (!(std::strcmp(id, "NearestNeighbor_") == 0))
